@@ -97,6 +97,12 @@ def _get_parm_type_real(name: str, default: Optional[ArgT] = None) -> Union[VarT
         return default
 
 
+def _needs_quotes(text: str) -> bool:
+    """Check if this name or value must be quoted to be read back as a single string."""
+    # Empty strings would vanish, a leading / starts a comment and a leading # a directive.
+    return not text or text[0] in '/#' or any(c in BARE_DISALLOWED for c in text)
+
+
 class Material(MutableMapping[str, str]):
     """Represents a material.
 
@@ -287,9 +293,9 @@ class Material(MutableMapping[str, str]):
         for param in self._params.values():
             name = param.name
             value = param.value
-            if any(c in BARE_DISALLOWED for c in name):
+            if _needs_quotes(name):
                 name = f'"{name}"'
-            if not value or any(c in BARE_DISALLOWED for c in value):
+            if _needs_quotes(value):
                 value = f'"{value}"'
             f.write(f'\t{name} {value}\n')
         for block in self.blocks:
